@@ -760,6 +760,13 @@ class CSSStyleSheet(cssutils.stylesheets.StyleSheet):
                         ):
                             index = i  # before these
                             break
+                    # but never before an @charset or @import, e.g. if a
+                    # comment precedes these
+                    for i, r in enumerate(self._cssRules):
+                        if r.type in (r.CHARSET_RULE, r.IMPORT_RULE) and (
+                            index is None or i >= index
+                        ):
+                            index = i + 1
             else:
                 # after @charset and @import
                 for r in self._cssRules[index:]:
